@@ -128,7 +128,7 @@ func VH_C18_layout() {
 	// each object file is the plain JSON encoding of the object
 	for i := range rows {
 		var got vObj
-		err := unmarshalJsonFile(root+"/"+dirName+"/"+rows[i].uuid+ext, &got)
+		err := vReadJSON(root+"/"+dirName+"/"+rows[i].uuid+ext, &got)
 		vAssert("C18.layout.plain_json", err == nil)
 		if err == nil {
 			vAssert("C18.layout.content", vhFieldsEq(&got, &rows[i].o))
